@@ -270,6 +270,10 @@ private:
     asio::steady_timer _ping_timer;
     asio::steady_timer _sentry_timer;
 
+    // set when a connection starts a new session; consumed by
+    // async_sender::resend() once everything has been re-queued
+    bool _session_lost { false };
+
     BOOST_MQTT5_VERIF_FRIEND
 
     client_service(const client_service& other) :
@@ -457,6 +461,7 @@ public:
 
         if (!session_state.session_present()) {
             _replies.clear_pending_pubrels();
+            _session_lost = true;
             session_state.session_present(true);
 
             if (session_state.subscriptions_present()) {
